@@ -11,4 +11,6 @@ if missing:
     print('setup: missing modules in /venv: %s' % missing); sys.exit(2)
 PY
 /venv/bin/python -m vsim.build
+# the simulated threading primitives must agree with CPython's before anything built on them is believed
+/venv/bin/python -m vsim.test_simthreads
 /venv/bin/python check.py --warm
